@@ -669,7 +669,7 @@ func checkC03(r *vlib.Run) int {
 	dOK := 0
 	for s := 0; s < nD; s++ {
 		rng := vlib.NewRng(r.Seed, fmt.Sprintf("C03/daemon/%d", s))
-		res := daemonRun(rng, 150, false, false, true)
+		res := daemonRun(rng, 150, false, false, true, false)
 		if !res.ok {
 			r.Inconclusive("race-daemon scenario not observable: " + trunc(res.why, 300))
 			continue
